@@ -305,3 +305,28 @@ def operands_and_offset(ctx, rule_p='K7', rule_x='K8'):
                                 hi = hi or bool(dims)
                     ctx.inst(rule_x, '%s#clip-%s' % (fn, fld), lo and hi, 'pixel access is guarded by 0 <= %s (%s) and %s < image %s (%s)'
                              % (fld, lo, fld, dimk[0], hi), c.span, key=ctx.key(fn, rule_x, 'clip', fld))
+
+
+def clip_guarded(b, bb, coord, axis_dims, img):
+    """is the pixel access in block bb guarded by 0 <= coord and coord < image dimension (width|height, or dimensions().N)?"""
+    lo = hi = False
+    coord = strip_casts(coord)
+    for cond, vals, a in q.guards(b, bb):
+        truth = q.bool_outcome(b, a, vals)
+        if cond[0] == 'bin' and strip_casts(cond[2]) == coord:
+            if cond[1] == 'Lt' and q.const_val(cond[3]) == 0 and truth is False:
+                lo = True
+            if cond[1] == 'Ge' and q.const_val(cond[3]) == 0 and truth is True:
+                lo = True
+            dims = [x for x in walk(cond[3]) if x[0] == 'call' and x[1].startswith('image::ImageBuffer::') and is_param(x[2][0], img)]
+            if dims and ((cond[1] == 'Ge' and truth is False) or (cond[1] == 'Lt' and truth is True)):
+                dn = dims[0][1].split('::')[-1]
+                hi = dn == axis_dims[0] or (dn == 'dimensions' and any(x[0] == 'field' and x[2] == axis_dims[1] for x in walk(cond[3])))
+        if cond[0] == 'call' and cond[1] == 'std::ops::Range::contains' and truth is True and strip_casts(cond[2][1]) == coord:
+            rg = cond[2][0]
+            if rg[0] == 'agg':
+                f = dict(rg[3])
+                lo = lo or q.const_val(f['start']) == 0
+                dims = [x for x in walk(f['end']) if x[0] == 'call' and x[1] == 'image::ImageBuffer::' + axis_dims[0] and is_param(x[2][0], img)]
+                hi = hi or bool(dims)
+    return lo and hi
